@@ -132,7 +132,7 @@ impl SubscriptionActor {
                         Some(request) = receiver.recv() => {
                             #[cfg(deltio_verif)]
                             crate::verif::point("s.turn", actor.internal_id as u64).await;
-                            actor.receive(request).await
+                            actor.receive(request, &mut receiver).await
                         },
                         Some(expired) = actor.outstanding.poll_next_expired() => {
                             #[cfg(deltio_verif)]
@@ -166,7 +166,26 @@ impl SubscriptionActor {
     }
 
     /// Receives a request.
-    async fn receive(&mut self, request: SubscriptionRequest) {
+    async fn receive(
+        &mut self,
+        request: SubscriptionRequest,
+        receiver: &mut mpsc::Receiver<SubscriptionRequest>,
+    ) {
+        match request {
+            SubscriptionRequest::Delete { responder } => {
+                let result = self.delete(receiver).await;
+                #[cfg(deltio_verif)]
+                crate::verif::emit("s.delret", |_| {
+                    serde_json::json!({"si": self.internal_id, "ok": result.is_ok()})
+                });
+                let _ = responder.send(result);
+            }
+            request => self.receive_sync(request),
+        }
+    }
+
+    /// Receives a request that can be handled without waiting for anything else.
+    fn receive_sync(&mut self, request: SubscriptionRequest) {
         match request {
             SubscriptionRequest::PostMessages { messages } => {
                 #[cfg(deltio_verif)]
@@ -258,12 +277,8 @@ impl SubscriptionActor {
                 let _ = responder.send(result);
             }
             SubscriptionRequest::Delete { responder } => {
-                let result = self.delete().await;
-                #[cfg(deltio_verif)]
-                crate::verif::emit("s.delret", |_| {
-                    serde_json::json!({"si": self.internal_id, "ok": result.is_ok()})
-                });
-                let _ = responder.send(result);
+                // Only reached while a deletion is already in progress.
+                let _ = responder.send(Ok(()));
             }
             SubscriptionRequest::GetStats { responder } => {
                 let result = self.get_stats();
@@ -366,7 +381,10 @@ impl SubscriptionActor {
     }
 
     /// Marks the subscription as deleted. Further requests will be no-ops.
-    async fn delete(&mut self) -> Result<(), DeleteError> {
+    async fn delete(
+        &mut self,
+        receiver: &mut mpsc::Receiver<SubscriptionRequest>,
+    ) -> Result<(), DeleteError> {
         if self.deleted {
             return Ok(());
         }
@@ -384,12 +402,21 @@ impl SubscriptionActor {
 
         // If the topic is still around, remove ourselves from it's list of subscriptions.
         if let Some(topic) = self.topic.upgrade() {
-            topic
-                .remove_subscription(self.info.name.clone())
-                .await
-                .map_err(|e| match e {
-                    RemoveSubscriptionError::Closed => DeleteError::Closed,
-                })?;
+            let remove = topic.remove_subscription(self.info.name.clone());
+            tokio::pin!(remove);
+            loop {
+                tokio::select! {
+                    result = &mut remove => {
+                        result.map_err(|e| match e {
+                            RemoveSubscriptionError::Closed => DeleteError::Closed,
+                        })?;
+                        break;
+                    }
+                    // Keep draining the mailbox (requests are no-ops now): the topic may be
+                    // waiting for room in it before it can get to our request.
+                    Some(request) = receiver.recv() => self.receive_sync(request),
+                }
+            }
         }
 
         self.delegate.delete(&self.info.name);
